@@ -422,6 +422,9 @@ func genC06Rest(c *Ctx, leaves []string, mv func() (int, int)) {
 	// S. every variable-length thing at n-1, n, n+1 for the powers of two 16..8192 (+ 32767/32768/65535)
 	c06SizeSweep(c)
 
+	// V. VarInt / VarLong value classes through every route
+	c06VarVals(c)
+
 	// G2. histories of Marshal / Builder calls, all packets observed at the end
 	c06HistGen(c)
 
